@@ -157,12 +157,12 @@ def run(ctx):
             raise tlc.MachineryError("Session counterexample does not reproduce on the real model: %s" % sd.history(r.trace, len(r.trace) - 1))
         record(found, r.trace, o, observers)
     # 2. exhaustive graph, every edge that returns to top level
-    _, n1 = walk(ctx, rep, "c17a", 3 if quick else 4, 2, 500 if quick else 9000, rng, observers, found)
+    _, n1 = walk(ctx, rep, "c17a", 3 if quick else 4, 2, 500 if quick else 3500, rng, observers, found)
     # a group whose chains share one Decay object (4-body cascade): the same behaviours, smaller budget
     rep4 = SessionReplayer(False, ctx.seed % 1000 + 2, model="4body")
-    _, n2 = walk(ctx, rep4, "c17b", 3, 2, 200 if quick else 3000, rng, observers, found)
+    _, n2 = walk(ctx, rep4, "c17b", 3, 2, 200 if quick else 1200, rng, observers, found)
     # 3. deep simulated behaviours (nesting up to 3)
-    n3 = simulate(ctx, rep, "c17", 120 if quick else 1500, 14 if quick else 24, 3, observers, found)
+    n3 = simulate(ctx, rep, "c17", 120 if quick else 500, 14 if quick else 24, 3, observers, found)
     n_replayed = n1 + n2 + n3
     ctx.cov["traces_validated_against_impl"] = n_replayed
     for sig, d in sorted(found.items()):
